@@ -96,6 +96,24 @@ def run(tier):
                     ops.append({"op": "braille", "id": "${ID:%d}" % k})
                     meta.append(("hlid",))
             scripts.append({"id": f"{code}:{b}", "ops": ops, "meta": meta, "code": code, "isolate_on_panic": True})
+    # the code is switched inside a session: a character that code A defines nowhere (it passes through by design) is brailled under
+    # A, then under B, which defines it - whatever the session remembers about the character under A must not show under B
+    n_sw = 12 if tier == "quick" else 150
+    for code in CELL_CODES + TEXT_CODES:
+        ops = [{"op": "set_rules_dir", "dir": "$RULES", "setup": True}, {"op": "set_pref", "name": "Language", "value": LANG.get(code, "en"), "setup": True}]
+        meta = [None] * 2
+        for other in CELL_CODES + TEXT_CODES:
+            if other == code:
+                continue
+            only_here = sorted(T.braille_defined(code) - T.braille_defined(other) - set(range(0x80)))
+            r2 = random.Random(f"{C.seed()}|{other}|{code}")
+            for cp in r2.sample(only_here, min(n_sw, len(only_here))):
+                e = f"<math><mi>x</mi><mo>=</mo><mtext>&#x{cp:X};</mtext></math>"
+                ops += [{"op": "set_pref", "name": "BrailleCode", "value": other}, {"op": "set_mathml", "mathml": e}, {"op": "braille", "id": ""},
+                        {"op": "set_pref", "name": "BrailleCode", "value": code}, {"op": "set_pref", "name": "BrailleNavHighlight", "value": "Off"},
+                        {"op": "set_mathml", "mathml": e}, {"op": "braille", "id": ""}, {"op": "braille", "id": ""}, {"op": "braille", "id": "no-such-id"}]
+                meta += [None, None, None, None, None, ("set", e, f"after-{other}"), ("off",), ("hl",), ("hl",)]
+        scripts.append({"id": f"{code}:switch", "ops": ops, "meta": meta, "code": code, "isolate_on_panic": True})
     results = C.run_mcv([{"id": s["id"], "ops": s["ops"], "isolate_on_panic": True} for s in scripts], wd, timeout_ms=60000)
     events, back = [], []
     for si, (s, r) in enumerate(zip(scripts, results)):
